@@ -119,6 +119,15 @@ theorem FaultSim.getAcct (a : Bytes) : FaultSim (getAcct a) :=
 theorem FaultSim.setAcct (a : Bytes) (x : Acct) : FaultSim (setAcct a x) :=
   FaultSim.of_pure_state _ (by intro c f; simp [Esdt.setAcct, Ctx.withFail])
 
+theorem FaultSim.setOwner (a v : Bytes) : FaultSim (setOwner a v) :=
+  FaultSim.of_pure_state _ (by intro c f; simp [Esdt.setOwner, Ctx.withFail])
+theorem FaultSim.setName (a v : Bytes) : FaultSim (setName a v) :=
+  FaultSim.of_pure_state _ (by intro c f; simp [Esdt.setName, Ctx.withFail])
+theorem FaultSim.setReward (a : Bytes) (v : Int) : FaultSim (setReward a v) :=
+  FaultSim.of_pure_state _ (by intro c f; simp [Esdt.setReward, Ctx.withFail])
+theorem FaultSim.setBalance (a : Bytes) (v : Int) : FaultSim (setBalance a v) :=
+  FaultSim.of_pure_state _ (by intro c f; simp [Esdt.setBalance, Ctx.withFail])
+
 theorem FaultSim.guardE (b : Bool) (e : ErrKind) : FaultSim (guardE b e) := by
   unfold Esdt.guardE; split
   · exact FaultSim.fail e
@@ -159,6 +168,10 @@ macro "fs_step" : tactic => `(tactic| with_reducible first
   | exact FaultSim.readKey _ _
   | exact FaultSim.getAcct _
   | exact FaultSim.setAcct _ _
+  | exact FaultSim.setOwner _ _
+  | exact FaultSim.setName _ _
+  | exact FaultSim.setReward _ _
+  | exact FaultSim.setBalance _ _
   | fs_spec
   | intro _
   | apply FaultSim.ite
